@@ -567,6 +567,9 @@ func (f *FnVC) trBin(env *Env, x SBin) TV {
 	case "-":
 		return TV{"(- " + a.T + " " + b.T + ")", a.Ty, a.Sort}
 	case "*":
+		if a.Sort == "Real" {
+			return TV{"(" + f.rmulSym(a.T, b.T) + " " + a.T + " " + b.T + ")", a.Ty, a.Sort}
+		}
 		return TV{"(* " + a.T + " " + b.T + ")", a.Ty, a.Sort}
 	case "/":
 		if a.Sort == "Real" {
